@@ -4,7 +4,8 @@ package consensus
 // files on the journalled file system) — prevote / precommit for nil, A or B and proposals for A or B, in rounds 0 and 1 of one
 // height, each with a fresh timestamp — interleaved with restarts (the signer is dropped and reloaded from its files). Judged on
 // everything the key released: per (height, round, step) one value only, and a repeated request for the same value gets the very
-// same signature and timestamp back.
+// same signature and timestamp back. Sequences are also run with one injected storage failure (an input/output error at one
+// operation of one request's sign-state save): the signer dies (restart from the files) or reports an error, and the same rule holds.
 
 import (
 	"fmt"
@@ -24,11 +25,15 @@ type c04fOp struct {
 	K string `json:"op"` // prevote | precommit | proposal | restart
 	R int32  `json:"round,omitempty"`
 	B int    `json:"block,omitempty"` // 0 nil, 1 A, 2 B
+	F int    `json:"fault,omitempty"` // f > 0: the f-th storage operation of this request fails (input/output error)
 }
 
 func (o c04fOp) String() string {
 	if o.K == "restart" {
 		return "restart"
+	}
+	if o.F > 0 {
+		return fmt.Sprintf("%s(r%d,%s)!io%d", o.K, o.R, []string{"nil", "A", "B"}[o.B], o.F)
 	}
 	return fmt.Sprintf("%s(r%d,%s)", o.K, o.R, []string{"nil", "A", "B"}[o.B])
 }
@@ -37,7 +42,33 @@ type c04fCase struct {
 	Ops []c04fOp `json:"ops"`
 }
 
+// c04fSaveOps: storage operations of one sign-state save (the fault positions of a request), measured on the real code.
+func c04fSaveOps() int {
+	w := vos.NewWorld()
+	defer w.Close()
+	dir := w.Root + "/config"
+	if err := vos.MkdirAll(dir, 0o700); err != nil {
+		panic(err)
+	}
+	pv := privval.NewFilePV(ed25519.GenPrivKeyFromSecret([]byte("verif-c04-filepv")), dir+"/priv_validator_key.json", dir+"/priv_validator_state.json")
+	pv.Save()
+	before := w.JournalLen()
+	v := &types.Vote{Type: tmproto.PrevoteType, Height: 1, Round: 0, Timestamp: time.Date(2022, 3, 1, 0, 0, 1, 0, time.UTC), ValidatorAddress: pv.GetAddress(), ValidatorIndex: 0}
+	vp := v.ToProto()
+	if err := pv.SignVote("verif-c04", vp); err != nil {
+		panic(err)
+	}
+	return w.JournalLen() - before
+}
+
 func c04fRun(c c04fCase) (key, what string) {
+	k, wh, _ := c04fRunF(c)
+	return k, wh
+}
+
+// c04fRunF also reports whether every injected fault of the case fired.
+func c04fRunF(c c04fCase) (key, what string, fired bool) {
+	fired = true
 	w := vos.NewWorld()
 	defer w.Close()
 	dir := w.Root + "/config"
@@ -61,6 +92,23 @@ func c04fRun(c c04fCase) (key, what string) {
 	}
 	first := map[slot]rel{}
 	chain := "verif-c04"
+	// a request whose storage operation fails: the signer either reports an error or dies (a panic = the process is gone,
+	// the operator starts it again from its files)
+	call := func(f int, fn func() error) (err error, died bool) {
+		if f > 0 {
+			w.FailNext(f - 1)
+		}
+		defer func() {
+			if f > 0 && w.FailArmed() {
+				fired = false
+			}
+			w.FailNext(-1)
+			if x := recover(); x != nil {
+				died = true
+			}
+		}()
+		return fn(), false
+	}
 	for n, o := range c.Ops {
 		ts := time.Date(2022, 3, 1, 0, 0, n+1, 0, time.UTC) // every request carries a later timestamp
 		switch o.K {
@@ -71,20 +119,23 @@ func c04fRun(c c04fCase) (key, what string) {
 			p := types.NewProposal(1, o.R, -1, blocks[o.B])
 			p.Timestamp = ts
 			pp := p.ToProto()
-			if err := pv.SignProposal(chain, pp); err != nil {
+			if err, died := call(o.F, func() error { return pv.SignProposal(chain, pp) }); died {
+				pv = privval.LoadFilePV(keyFile, stateFile)
+				continue
+			} else if err != nil {
 				continue // a refusal releases nothing
 			}
 			if !pub.VerifySignature(types.ProposalSignBytes(chain, pp), pp.Signature) {
-				return "privval/file.go:signProposal:returns-a-signature-that-does-not-verify", fmt.Sprintf("after %v", c.Ops[:n+1])
+				return "privval/file.go:signProposal:returns-a-signature-that-does-not-verify", fmt.Sprintf("after %v", c.Ops[:n+1]), fired
 			}
 			sl := slot{o.R, 1}
 			got := rel{o.B, fmt.Sprintf("%X", pp.Signature), pp.Timestamp}
 			if f, ok := first[sl]; ok {
 				if f.b != got.b {
-					return "privval:conflicting-signatures-released", fmt.Sprintf("ops %v: proposals for two different blocks signed at round %d", c.Ops[:n+1], o.R)
+					return "privval:conflicting-signatures-released", fmt.Sprintf("ops %v: proposals for two different blocks signed at round %d", c.Ops[:n+1], o.R), fired
 				}
 				if f.sig != got.sig || !f.ts.Equal(got.ts) {
-					return "privval:same-vote-re-signed-instead-of-reused", fmt.Sprintf("ops %v: the same proposal was signed again with another timestamp/signature", c.Ops[:n+1])
+					return "privval:same-vote-re-signed-instead-of-reused", fmt.Sprintf("ops %v: the same proposal was signed again with another timestamp/signature", c.Ops[:n+1]), fired
 				}
 			} else {
 				first[sl] = got
@@ -96,27 +147,30 @@ func c04fRun(c c04fCase) (key, what string) {
 			}
 			v := &types.Vote{Type: typ, Height: 1, Round: o.R, BlockID: blocks[o.B], Timestamp: ts, ValidatorAddress: pub.Address(), ValidatorIndex: 0}
 			vp := v.ToProto()
-			if err := pv.SignVote(chain, vp); err != nil {
+			if err, died := call(o.F, func() error { return pv.SignVote(chain, vp) }); died {
+				pv = privval.LoadFilePV(keyFile, stateFile)
+				continue
+			} else if err != nil {
 				continue
 			}
 			if !pub.VerifySignature(types.VoteSignBytes(chain, vp), vp.Signature) {
-				return "privval/file.go:signVote:returns-a-signature-that-does-not-verify", fmt.Sprintf("after %v", c.Ops[:n+1])
+				return "privval/file.go:signVote:returns-a-signature-that-does-not-verify", fmt.Sprintf("after %v", c.Ops[:n+1]), fired
 			}
 			sl := slot{o.R, step}
 			got := rel{o.B, fmt.Sprintf("%X", vp.Signature), vp.Timestamp}
 			if f, ok := first[sl]; ok {
 				if f.b != got.b {
-					return "privval:conflicting-signatures-released", fmt.Sprintf("ops %v: round %d step %d signed for two different values", c.Ops[:n+1], o.R, step)
+					return "privval:conflicting-signatures-released", fmt.Sprintf("ops %v: round %d step %d signed for two different values", c.Ops[:n+1], o.R, step), fired
 				}
 				if f.sig != got.sig || !f.ts.Equal(got.ts) {
-					return "privval:same-vote-re-signed-instead-of-reused", fmt.Sprintf("ops %v: the same vote was signed again with another timestamp/signature", c.Ops[:n+1])
+					return "privval:same-vote-re-signed-instead-of-reused", fmt.Sprintf("ops %v: the same vote was signed again with another timestamp/signature", c.Ops[:n+1]), fired
 				}
 			} else {
 				first[sl] = got
 			}
 		}
 	}
-	return "", ""
+	return "", "", fired
 }
 
 func TestVerifC04FilePV(t *testing.T) {
@@ -148,6 +202,9 @@ func TestVerifC04FilePV(t *testing.T) {
 	}
 	alpha = append(alpha, c04fOp{K: "restart"})
 	maxLen := vr.Pick(4, 5)
+	faultLen := 4 // sequences up to this length are also run with one injected storage failure
+	saveOps := c04fSaveOps()
+	var faulted int64
 	n, mine := 0, 0
 	stop := false
 	reported := map[string]bool{}
@@ -186,6 +243,30 @@ func TestVerifC04FilePV(t *testing.T) {
 						r.Violation(k, w, c)
 					}
 				}
+				// one injected storage failure: every request of the sequence x every storage operation of a save
+				for i, o := range seq {
+					if o.K == "restart" || len(seq) > faultLen {
+						continue
+					}
+					for f := 1; f <= saveOps; f++ {
+						fc := c04fCase{Ops: append([]c04fOp{}, seq...)}
+						fc.Ops[i].F = f
+						k, w, fired := c04fRunF(fc)
+						if !fired {
+							break // the request wrote nothing (refused before the save): no later position either
+						}
+						r.Eval()
+						r.NTCount(1)
+						faulted++
+						if k != "" {
+							r.Outcome(k)
+							if !reported[k] {
+								reported[k] = true
+								r.Violation(k, w, fc)
+							}
+						}
+					}
+				}
 			}
 		}
 		if len(seq) == maxLen {
@@ -199,5 +280,7 @@ func TestVerifC04FilePV(t *testing.T) {
 	}
 	rec()
 	r.Outcome("sequences-safe")
-	r.Bound = fmt.Sprintf("all sequences of length <= %d over %d operations", maxLen, len(alpha))
+	r.Set("storage_operations_per_save", saveOps)
+	r.Add("sequences_with_one_injected_storage_failure", faulted)
+	r.Bound = fmt.Sprintf("all sequences of length <= %d over %d operations; those of length <= %d also with one failing storage operation (each request x each of the %d operations of a save)", maxLen, len(alpha), faultLen, saveOps)
 }
